@@ -3,7 +3,8 @@ import json, os, subprocess
 import common, eng_eval
 from common import tlc, tlc_ok, tlc_must_fail, build_driver, run_driver, judge, ToolError, log
 
-WHY = {"C03": {"accept", "errclass", "compile"}, "C04": {"tree", "paren", "results"}, "C12": {"coords", "errclass"}}
+# (a sentence that is refused has no tree at all: that is C03's "accepts exactly the language" and C04's "the parse of every expression is the one the rules dictate")
+WHY = {"C03": {"accept", "reject", "errclass", "compile"}, "C04": {"tree", "paren", "results", "reject"}, "C12": {"coords", "errclass"}}
 
 TIERS = {
     "quick":    dict(mc_lang="MC_Lang_quick.cfg", mc_sent="MC_Sent_quick.cfg", tokN=4, nearN=4, juxtaN=3, wrapN=5, chars=[("full", 3), ("small", 4)],
